@@ -2,15 +2,18 @@ package main
 
 import (
 	"fmt"
+	"sort"
 	"strings"
 
 	"github.com/gofiber/fiber/v3"
+
+	"verifmc/core"
 )
 
 // Signatures name the failing input class. Classes are decided from the inputs
 // (and, for oracle (b), from metamorphic re-queries of RoutePatternMatch), never
 // from counters; whatever does not fall into a named class keeps the pattern
-// shape and configuration in its signature so that a new root cause is a new signature.
+// parameter profile and configuration in its signature so that a new root cause is a new signature.
 
 func allSlashes(s string) bool { return strings.Trim(s, "/") == "" }
 
@@ -71,6 +74,28 @@ func starByTrimming(p *pat, c rcfg) bool {
 		}
 	}
 	return true
+}
+
+// profile is the coarse structure used by fall-back signatures: each parameter with the delimiter
+// that ends it ('$' = end of pattern); literal text is ignored.
+func profile(p *pat) string {
+	if len(p.keys) == 0 {
+		s := "profile=[literal-only"
+		if endsWithSlashLiteral(p) {
+			s += ",ends-in-slash"
+		}
+		return s + "]"
+	}
+	var parts []string
+	for i, ti := range p.ptok {
+		k := [...]string{"", ":p", ":p?", "*", "+"}[p.toks[ti].kind]
+		f := "$"
+		if p.follow[i] != "" {
+			f = p.follow[i][:1]
+		}
+		parts = append(parts, k+f)
+	}
+	return "profile=[" + strings.Join(parts, " ") + "]"
 }
 
 func endsWithSlashLiteral(p *pat) bool {
@@ -134,16 +159,13 @@ func sigA(p *pat, v variant, c rcfg, failure string, got []string) string {
 		if starByTrimming(p, c) {
 			return head + " StrictRouting=0 pattern-'/*'+slashes: value keeps the request's trailing slashes"
 		}
-		if !c.Strict && endsWithSlashLiteral(p) {
-			return head + " " + rel + " StrictRouting=0 shape=[" + p.shape + "]"
-		}
-		return head + " " + rel + " cfg=" + c.String() + " shape=[" + p.shape + "]"
+		return head + " " + rel + " cfg=" + c.String() + " " + profile(p)
 	case "matched-although-config-says-different":
 		if v.name == "slash-removed" && len(p.keys) > 0 && endsWithSlashLiteral(p) {
 			return head + " StrictRouting=1 parameterised-pattern-ending-in-'/'-literal"
 		}
 	}
-	return head + " cfg=" + c.String() + " shape=[" + p.shape + "]"
+	return head + " cfg=" + c.String() + " " + profile(p)
 }
 
 func sigB(p *pat, path string, c rcfg, hit, rpm bool, fc fiber.Config) string {
@@ -171,5 +193,76 @@ func sigB(p *pat, path string, c rcfg, hit, rpm bool, fc fiber.Config) string {
 	if t := trim(dec); t != path && fiber.RoutePatternMatch(t, p.text, fc) == hit {
 		return "rpm " + dir + " agrees-on-hand-decoded-and-trimmed-path"
 	}
-	return "rpm " + dir + " cfg=" + c.String() + " shape=[" + p.shape + "]"
+	return "rpm " + dir + " cfg=" + c.String() + " " + profile(p)
+}
+
+// collapseConfigs rewrites fall-back signatures ("... cfg=CSx/Stricty/Unescz ...") that occur for a
+// whole sub-cube of the 8 configurations into one signature naming only the bits that matter
+// ("cfg=Strict1", or "cfg=any"). Computed from the complete, merged violation set: deterministic.
+func collapseConfigs(in map[string]*core.Violation) map[string]*core.Violation {
+	type member struct {
+		cfg int
+		sig string
+	}
+	groups := map[string][]member{}
+	out := map[string]*core.Violation{}
+	for sig := range in {
+		i := strings.Index(sig, " cfg=CS")
+		if i < 0 || len(sig) < i+len(" cfg=CS0/Strict0/Unesc0") {
+			out[sig] = in[sig]
+			continue
+		}
+		c := sig[i+5 : i+len(" cfg=CS0/Strict0/Unesc0")]
+		var cs, st, un int
+		if _, err := fmt.Sscanf(c, "CS%d/Strict%d/Unesc%d", &cs, &st, &un); err != nil {
+			out[sig] = in[sig]
+			continue
+		}
+		key := sig[:i] + " cfg=\x00" + sig[i+len(" cfg=CS0/Strict0/Unesc0"):]
+		groups[key] = append(groups[key], member{cs | st<<1 | un<<2, sig})
+	}
+	names := []string{"CS", "Strict", "Unesc"}
+	for key, ms := range groups {
+		set := 0
+		for _, m := range ms {
+			set |= 1 << m.cfg
+		}
+		free := 0
+		for b := 0; b < 3; b++ {
+			indep := true
+			for _, m := range ms {
+				if set&(1<<(m.cfg^(1<<b))) == 0 {
+					indep = false
+				}
+			}
+			if indep {
+				free++
+			}
+		}
+		if free == 0 || len(ms) != 1<<free {
+			for _, m := range ms {
+				out[m.sig] = in[m.sig]
+			}
+			continue
+		}
+		sort.Slice(ms, func(i, j int) bool { return ms[i].cfg < ms[j].cfg })
+		var fixed []string
+		for b := 0; b < 3; b++ {
+			if set&(1<<(ms[0].cfg^(1<<b))) == 0 {
+				fixed = append(fixed, fmt.Sprintf("%s%d", names[b], ms[0].cfg>>b&1))
+			}
+		}
+		label := "any"
+		if len(fixed) > 0 {
+			label = strings.Join(fixed, "/")
+		}
+		merged := *in[ms[0].sig]
+		merged.Signature = strings.Replace(key, "\x00", label, 1)
+		merged.Count = 0
+		for _, m := range ms {
+			merged.Count += in[m.sig].Count
+		}
+		out[merged.Signature] = &merged
+	}
+	return out
 }
